@@ -387,24 +387,23 @@ var harnesses = []harness{
 		e.thread("Shutdown", e.shutdown)
 		e.finish(false)
 	}},
-	{Name: "S7", Desc: "two incoming connections from the same address || Disconnect (then Shutdown)", Overlap2: [2]string{"Disconnect", "peer1"}, Body: func(o *obs) {
+	{Name: "S7", Desc: "second incoming connection from the address of an established one || Disconnect of that address (then Shutdown)", Overlap2: [2]string{"Disconnect", "peer2"}, Body: func(o *obs) {
 		e := newEnv(o, false)
 		e.run()
+		e.background("peer1", e.peerBody(peerScript{local: peerA}))
 		vsched.Quiesce()
 		vsched.StartExploring()
-		for _, n := range []string{"peer1", "peer2"} {
-			n := n
-			e.background(n, func() {
-				vsched.Mark(n + ":begin")
-				e.peerBody(peerScript{local: peerA})()
-				vsched.Mark(n + ":end")
-			})
-		}
+		e.background("peer2", func() {
+			vsched.Mark("peer2:begin")
+			e.peerBody(peerScript{local: peerA})()
+			vsched.Mark("peer2:end")
+		})
 		e.thread("Disconnect", func() {
 			call(o, "Disconnect", func() error { return e.pool.Disconnect(peerA, errors.New("harness disconnect")) })
 		})
 		e.finish(true)
 	}},
+
 	{Name: "S8", Desc: "Run || ListeningAddress || Shutdown", Overlap: []string{"Run", "ListeningAddress"}, Body: func(o *obs) {
 		e := newEnv(o, false)
 		vsched.StartExploring()
